@@ -448,6 +448,31 @@ class Engine:
             return self._rec(z3.URem(A, B), hi=b - 1)
         raise Unsupported("BV binop %s" % t.__name__)
 
+    def _bitspan(self, t, depth=0):
+        """(known trailing zero bits, bit-length bound or None) of a non-negative Int term"""
+        if not is_sym(t):
+            v = int(t)
+            if v < 0:
+                return (0, None)
+            return ((v & -v).bit_length() - 1 if v else 1 << 30, v.bit_length())
+        iv = self.ival(t)
+        hi = iv[1].bit_length() if iv is not None and iv[0] >= 0 else None
+        tz = 0
+        if depth < 20:
+            k = t.decl().kind()
+            ch = t.children()
+            if z3.is_int_value(t):
+                return self._bitspan(t.as_long())
+            if k == z3.Z3_OP_MUL and len(ch) == 2:
+                for x, y in ((ch[0], ch[1]), (ch[1], ch[0])):
+                    if z3.is_int_value(x) and x.as_long() > 0:
+                        c = x.as_long()
+                        tz = ((c & -c).bit_length() - 1) + self._bitspan(y, depth + 1)[0]
+                        break
+            elif k == z3.Z3_OP_ADD:
+                tz = min(self._bitspan(c, depth + 1)[0] for c in ch)
+        return (tz, hi)
+
     def _int_binop(self, t, a, b):
         if t is ast.Add:
             return a + b
@@ -481,6 +506,16 @@ class Engine:
                         acc = acc + ((sym / (1 << k)) % 2) * (1 << k)
                 return acc
             raise Unsupported("& with mask %d" % c)
+        if t is ast.BitOr:
+            # operands occupying disjoint bit ranges: a | b = a + b  (attribute words: FLAGS | (mode << 16))
+            (za, ha), (zb, hb) = self._bitspan(a), self._bitspan(b)
+            if ha is not None and hb is not None and (ha <= zb or hb <= za):
+                return a + b
+            for (sym, (z_, h_), c) in ((a, (za, ha), b), (b, (zb, hb), a)):
+                # a constant none of whose set bits falls into the span [z_, h_) the symbolic operand can occupy
+                if is_sym(sym) and not is_sym(c) and h_ is not None and c >= 0 and h_ > z_ and (c >> z_) & ((1 << (h_ - z_)) - 1) == 0:
+                    return a + b
+            raise Unsupported("Int | on operands whose bit ranges may overlap")
         if t is ast.FloorDiv and not is_sym(b) and b > 0:
             return a / b if is_sym(a) else a // b  # z3 Int '/' is floor division for positive divisors
         if t is ast.Mod and not is_sym(b) and b > 0:
